@@ -65,7 +65,7 @@ pub fn generate(ctx: &mut Ctx) {
         }
         bi += 1;
     }
-    let n = ctx.by_tier(200_000u64, 2_000_000u64) / ctx.nshards;
+    let n = ctx.by_tier(200_000u64, 8_000_000u64) / ctx.nshards;
     for i in 0..n {
         let mut rng = ctx.rng("set", i);
         let mut o = gen::Opts::new(rng.chance(1, 2));
